@@ -1,4 +1,4 @@
 SPECIFICATION Spec
-CONSTANTS MaxPg=5 InitN=3 MaxVer=14 MaxFrames=9 MaxTx=12 MaxGen=7 MaxDown=3 FixF1=TRUE FixF2=TRUE FixG1=TRUE ReqCtx=TRUE FixQ1=TRUE FixQ2=TRUE
+CONSTANTS MaxPg=5 InitN=3 MaxVer=14 MaxFrames=9 MaxTx=12 MaxGen=7 MaxDown=3 FixF1=TRUE FixF2=TRUE FixG1=TRUE ReqCtx=TRUE FixQ1=TRUE FixQ2=TRUE FixM2=TRUE
   Modes={"PASSIVE","RESTART","TRUNCATE"} AppModes={"PASSIVE","RESTART","TRUNCATE"} AtomicChk=TRUE WithCrash=FALSE
 CHECK_DEADLOCK FALSE
